@@ -57,6 +57,10 @@ fn c02_shard(ctx: &Ctx, out: &mut ShardOut) {
         Ok(CaseInfo { nontrivial: c.items.len() > 12 && c.hint < 128, classes: vec![("copyapi_cases", 1)], evaluations: 1, sub_hashes: vec![] })
     });
     run_big(ctx, out, "C02", C02_OR, 0);
+    drive(ctx, "eqsem", ctx.shard_seed(4), ctx.share(ctx.by_tier(8000, 100_000)) as u32, eq_case_strategy(), out, |c| {
+        let nt = run_eq_case(c).map_err(|m| CaseFail { prop: "C02".into(), msg: format!("[C02] {}", m) })?;
+        Ok(CaseInfo { nontrivial: nt, classes: vec![("equality_cases", 1), ("equality_cases_with_a_non_reflexive_value_or_equal_non_empty_maps", nt as u64)], evaluations: 1, sub_hashes: vec![] })
+    });
 }
 
 /// long histories over thousands of keys: every bulk operation at a scale the generated cases never
@@ -103,7 +107,79 @@ pub fn run_big(ctx: &Ctx, out: &mut ShardOut, asked: &'static str, or: Oracles, 
     }
 }
 
+/// equality through every operand form against `std::collections::HashMap<u32, f64>` semantics
+/// (values whose `PartialEq` is not reflexive: a map holding NaN is not equal to itself)
+#[derive(Clone, Debug, serde::Serialize, serde::Deserialize)]
+pub struct EqCase {
+    pub hmode: HMode,
+    pub a: Vec<(u8, u8)>,
+    /// 0 = b is built from the same pairs in reverse order, 1 = from `other`, 2 = same pairs with one value changed
+    pub kind: u8,
+    pub other: Vec<(u8, u8)>,
+}
+fn eq_case_strategy() -> impl Strategy<Value = EqCase> {
+    let pairs = || proptest::collection::vec((0u8..12, 0u8..5), 0..10);
+    (hmode_strategy(), pairs(), 0u8..3, pairs()).prop_map(|(hmode, a, kind, other)| EqCase { hmode, a, kind, other })
+}
+fn run_eq_case(c: &EqCase) -> Result<bool, String> {
+    const VALS: [f64; 5] = [0.0, 1.5, -0.0, f64::NAN, 7.25];
+    type FM = flurry::HashMap<u32, f64, HB>;
+    let b_pairs: Vec<(u8, u8)> = match c.kind {
+        0 => c.a.iter().rev().copied().collect(),
+        1 => c.other.clone(),
+        _ => {
+            let mut v = c.a.clone();
+            if let Some(x) = v.last_mut() {
+                x.1 = (x.1 + 1) % 5;
+            }
+            v
+        }
+    };
+    // reversed insertion order gives the same map only if no key repeats: build both std maps honestly
+    let mk_std = |p: &[(u8, u8)]| -> std::collections::HashMap<u32, f64> { p.iter().map(|(k, v)| (*k as u32, VALS[*v as usize])).collect() };
+    let mk = |p: &[(u8, u8)]| -> FM {
+        let m = FM::with_hasher(HB(c.hmode));
+        let g = m.guard();
+        for (k, v) in p {
+            m.insert(*k as u32, VALS[*v as usize], &g);
+        }
+        drop(g);
+        m
+    };
+    let (sa, sb) = (mk_std(&c.a), mk_std(&b_pairs));
+    let (fa, fb) = (mk(&c.a), mk(&b_pairs));
+    let (ga, gb) = (fa.guard(), fb.guard());
+    let want_ab = sa == sb;
+    let want_aa = sa == sa;
+    let r = fa.pin();
+    let forms: Vec<(&str, bool, bool)> = vec![
+        ("HashMap == HashMap", fa == fb, want_ab),
+        ("HashMap == HashMap (swapped)", fb == fa, sb == sa),
+        ("pin() == pin()", fa.pin() == fb.pin(), want_ab),
+        ("pin() == HashMap", fa.pin() == fb, want_ab),
+        ("HashMap == pin()", fa == fb.pin(), want_ab),
+        ("with_guard() == with_guard()", fa.with_guard(&ga) == fb.with_guard(&gb), want_ab),
+        ("map == itself", fa == fa, want_aa),
+        ("pin() == pin() of the same map", fa.pin() == fa.pin(), want_aa),
+        ("a pinned reference == its clone", r.clone() == r, want_aa),
+        ("pin() == the map it pins", fa.pin() == fa, want_aa),
+        ("map == pin() of itself", fa == fa.pin(), want_aa),
+        ("pin() == with_guard() of the same map", fa.pin() == fa.with_guard(&ga), want_aa),
+        ("clone == original", fa.clone() == fa, sa.clone() == sa),
+    ];
+    for (what, got, want) in forms {
+        if got != want {
+            return Err(format!("{} is {} but the standard map says {} (a = {:?}, b = {:?}, values {:?})", what, got, want, c.a, b_pairs, VALS));
+        }
+    }
+    Ok(!want_aa || (want_ab && !c.a.is_empty()))
+}
+
 fn c02_replay(sub: &str, case: &Value) -> Result<(), CaseFail> {
+    if sub == "eqsem" {
+        let c: EqCase = serde_json::from_value(case.clone()).map_err(|e| CaseFail { prop: "C02".into(), msg: format!("bad replay file: {}", e) })?;
+        return run_eq_case(&c).map(|_| ()).map_err(|m| CaseFail { prop: "C02".into(), msg: format!("[C02] {}", m) });
+    }
     replay_seq("C02", sub, case, C02_OR)
 }
 
@@ -521,7 +597,88 @@ fn run_sweep_case(c: &SweepCase) -> Result<(), String> {
     Ok(())
 }
 
+/// runs inside the probe child: build / reserve with a huge request and report the table length
+/// (the allocator trap ends the process first if a table of 2^27 bins or more is requested)
+pub fn capprobe_child(how: &str, c: usize) -> usize {
+    match how {
+        "with_capacity" => {
+            let m = flurry::HashMap::<u32, u32, HB>::with_capacity_and_hasher(c, HB(HMode::Identity));
+            let n = table_len(&m);
+            std::mem::forget(m);
+            n
+        }
+        "set_with_capacity" => {
+            let s = flurry::HashSet::<u32, HB>::with_capacity_and_hasher(c, HB(HMode::Identity));
+            let n = unsafe { s.verif_dump() }.table.as_ref().map_or(0, |t| t.bins.len());
+            std::mem::forget(s);
+            n
+        }
+        _ => {
+            let m = flurry::HashMap::<u32, u32, HB>::with_hasher(HB(HMode::Identity));
+            m.pin().reserve(c);
+            let n = table_len(&m);
+            std::mem::forget(m);
+            n
+        }
+    }
+}
+
+/// requests that no table can satisfy: the answer must be a table of exactly 2^30 bins (seen as
+/// an allocation request of 2^30 pointers by the trap in the child) or a panic, never a table of
+/// some other length
+fn huge_capacity_probes(ctx: &Ctx, out: &mut ShardOut) {
+    let cs: [usize; 16] = [
+        (1 << 29) - 1,
+        1 << 29,
+        (1 << 30) + 7,
+        1 << 40,
+        isize::MAX as usize,
+        usize::MAX,
+        usize::MAX / 2 + 1,
+        usize::MAX / 3,
+        0x5555_5555_5555_5554,
+        0x5555_5555_5555_5555,
+        0x5555_5555_5555_5556,
+        0xAAAA_AAAA_AAAA_AAAA,
+        0xAAAA_AAAA_AAAA_AAAB,
+        0xAAAA_AAAA_AAAA_AAAC,
+        1 << 62,
+        (1 << 63) + 1,
+    ];
+    let exe = match std::env::current_exe() {
+        Ok(e) => e,
+        Err(_) => return,
+    };
+    for how in ["with_capacity", "reserve_new", "set_with_capacity"] {
+        for c in cs {
+            let case = serde_json::json!({"how": how, "c": c.to_string()});
+            ctx.mark_inflight("huge", &case.to_string());
+            out.evaluations += 1;
+            out.class("huge_capacity_requests_probed_in_a_child_process", 1);
+            if let Err(m) = run_huge_probe(&exe, how, c) {
+                out.violations.push(Viol { prop: "C14".into(), msg: format!("[C14] {}", m), replay: serde_json::json!({"sub": "huge", "case": case}) });
+                return;
+            }
+        }
+    }
+}
+
+pub fn run_huge_probe(exe: &std::path::Path, how: &str, c: usize) -> Result<(), String> {
+    let o = std::process::Command::new(exe).args(["capprobe", how, &c.to_string()]).stderr(std::process::Stdio::null()).output().map_err(|e| format!("cannot run the probe child: {}", e))?;
+    let text = String::from_utf8_lossy(&o.stdout).trim().to_string();
+    match o.status.code() {
+        Some(77) => Ok(()),
+        Some(78) => Err(format!("{}({:#x}) asked the allocator for a block of 1 GiB or more that is not a table of 2^30 bins", how, c)),
+        Some(0) if text == "PANIC" => Ok(()),
+        Some(0) => Err(format!("{}({:#x}) returned a table of {} bins (the request cannot be met: the table must have 2^30 bins, or the call must panic)", how, c, text.trim_start_matches("LEN "))),
+        other => Err(format!("{}({:#x}): the probe child ended with {:?} {:?}", how, c, other, text)),
+    }
+}
+
 fn c14_shard(ctx: &Ctx, out: &mut ShardOut) {
+    if ctx.shard == 0 {
+        huge_capacity_probes(ctx, out);
+    }
     let n = ctx.share(ctx.by_tier(20_000, 300_000)) as u32;
     drive(ctx, "map", ctx.shard_seed(1), n, c14_case_strategy(), out, |c| {
         let s = run_map_case(c, C14_OR).map_err(|f| to_casefail("C14", f))?;
@@ -583,6 +740,12 @@ fn c14_shard(ctx: &Ctx, out: &mut ShardOut) {
 }
 
 fn c14_replay(sub: &str, case: &Value) -> Result<(), CaseFail> {
+    if sub == "huge" {
+        let how = case["how"].as_str().unwrap_or("with_capacity").to_string();
+        let c: usize = case["c"].as_str().and_then(|s| s.parse().ok()).unwrap_or(0);
+        let exe = std::env::current_exe().map_err(|e| CaseFail { prop: "C14".into(), msg: e.to_string() })?;
+        return run_huge_probe(&exe, &how, c).map_err(|m| CaseFail { prop: "C14".into(), msg: format!("[C14] {}", m) });
+    }
     if sub == "sweep" {
         let c: SweepCase = serde_json::from_value(case.clone()).map_err(|e| CaseFail { prop: "C14".into(), msg: format!("bad replay file: {}", e) })?;
         return run_sweep_case(&c).map_err(|m| CaseFail { prop: "C14".into(), msg: format!("[C14] {}", m) });
